@@ -152,7 +152,12 @@ fn versions(case: &Case) -> Versions {
         Class::Tx => {
             v.key = fix::transaction_key(1);
             let t = |n| fix::transaction(1, n, true);
-            v.txs = vec![vec![t(0)], vec![t(1)], vec![t(2), t(0)]];
+            // the third version also carries a look-alike: other content under the signature bytes of
+            // transaction 1 (not validly signed). Nothing at this layer verifies transactions; whatever
+            // the merge does with it, it must not cost a genuine transaction its place
+            let mut lookalike = t(1);
+            lookalike.content = fix::h32("c05-lookalike", &[1]);
+            v.txs = vec![vec![t(0)], vec![t(1)], vec![t(2), t(0), lookalike]];
             for txs in &v.txs {
                 v.values.push(fix::transactions_record(v.key.clone(), txs).value);
             }
@@ -450,8 +455,10 @@ fn is_merge(case: &Case, v: &Versions, seen: &[usize], rec: &Record) -> bool {
         Class::Tx => {
             let Ok(got) = try_deserialize_record::<Vec<Transaction>>(rec) else { return false };
             let got: BTreeSet<Transaction> = got.into_iter().collect();
-            let want: BTreeSet<Transaction> = seen.iter().flat_map(|i| v.txs[*i].clone()).collect();
-            got == want
+            let all: BTreeSet<Transaction> = seen.iter().flat_map(|i| v.txs[*i].clone()).collect();
+            let genuine: BTreeSet<Transaction> = all.iter().filter(|t| t.verify()).cloned().collect();
+            // the union of what was seen; entries that are not validly signed may be left out
+            got.is_subset(&all) && genuine.is_subset(&got)
         }
         Class::Reg => {
             let Ok(got) = try_deserialize_record::<SignedRegister>(rec) else { return false };
